@@ -117,7 +117,7 @@ theorem no_unknown_sink_reachable : ∀ s ∈ sinkSites, Reach succ entries s.1 
 /-- Conversely every known site is really reachable (a checked call path from an entry point is exhibited): the list is
 exact, not merely an upper bound. -/
 theorem known_sinks_reachable : ∀ k ∈ knownSites, ∃ s ∈ sinkSites, s.2 = k ∧ Reach succ entries s.1 :=
-  covered_sound succ entries sinkSites witnessPaths knownSites (by decide +kernel)
+  coveredZip_sound succ entries sinkSites witnessPaths knownSites (by decide +kernel)
 
 /-- Process-wide state: every reachable place that writes a package-level variable (assignment, element or field store,
 delete, increment or decrement) or calls a method on one is in the reviewed list — in particular no handler keeps a memo, cache or
@@ -126,14 +126,14 @@ theorem no_unknown_global_write_reachable : ∀ s ∈ globalWriteSites, Reach su
   sinksKnown_sound succ entries certificate globalWriteSites knownGlobalSites cert_closed cert_entries (by decide +kernel)
 
 theorem known_global_sites_reachable : ∀ k ∈ knownGlobalSites, ∃ s ∈ globalWriteSites, s.2 = k ∧ Reach succ entries s.1 :=
-  covered_sound succ entries globalWriteSites witnessPaths knownGlobalSites (by decide +kernel)
+  coveredZip_sound succ entries globalWriteSites globalWitnessPaths knownGlobalSites (by decide +kernel)
 
 /-- Scheduling: no `go` statement and no `select` over several channels is reachable from a contract entry point. -/
 theorem no_unknown_goroutine_reachable : ∀ s ∈ goroutineSites, Reach succ entries s.1 → s.2 ∈ knownGoroutineSites :=
   sinksKnown_sound succ entries certificate goroutineSites knownGoroutineSites cert_closed cert_entries (by decide +kernel)
 
 theorem known_goroutine_sites_reachable : ∀ k ∈ knownGoroutineSites, ∃ s ∈ goroutineSites, s.2 = k ∧ Reach succ entries s.1 :=
-  covered_sound succ entries goroutineSites witnessPaths knownGoroutineSites (by decide +kernel)
+  coveredZip_sound succ entries goroutineSites goroutineWitnessPaths knownGoroutineSites (by decide +kernel)
 
 open Poly.Model.Native
 
